@@ -251,6 +251,64 @@ func main() {
 		func(p orb.Point) orb.Geometry { return orb.MultiPolygon{{{{1, 2}, {3, 4}}}, {{{5, 6}}, {p, {7, 8}}}} },
 		func(p orb.Point) orb.Geometry { return orb.Bound{Min: orb.Point{-3, -4}, Max: p} },
 	}
+	// sizes: long texts (the parsers split with regular expressions and index into the split parts)
+	wsizes := []int{17, 100, 257, 1000}
+	if !r.Quick() {
+		wsizes = append(wsizes, 10000)
+	}
+	r.Explore("sizes", fmt.Sprintf("6 count dimensions (points of a multi-point, vertices of a line, rings of a polygon, lines of a multi-line, polygons of a multi-polygon, members of a flat collection) x counts %v: round trip through the generic and the typed parsers", wsizes), mc.Opts{MaxDev: -1, Split: 2}, func(c *mc.Ctx) {
+		dim := c.Choose(6)
+		n := wsizes[c.Choose(len(wsizes))]
+		pt := func(i int) orb.Point { return orb.Point{float64(i) / 4, float64(-i)} }
+		var g orb.Geometry
+		switch dim {
+		case 0:
+			m := make(orb.MultiPoint, n)
+			for i := range m {
+				m[i] = pt(i)
+			}
+			g = m
+		case 1:
+			m := make(orb.LineString, n)
+			for i := range m {
+				m[i] = pt(i)
+			}
+			g = m
+		case 2:
+			m := make(orb.Polygon, n)
+			for i := range m {
+				m[i] = orb.Ring{pt(i), pt(i + 1), pt(i + 2), pt(i)}
+			}
+			g = m
+		case 3:
+			m := make(orb.MultiLineString, n)
+			for i := range m {
+				m[i] = orb.LineString{pt(i), pt(i + 1)}
+			}
+			g = m
+		case 4:
+			m := make(orb.MultiPolygon, n)
+			for i := range m {
+				m[i] = orb.Polygon{{pt(i), pt(i + 1), pt(i + 2), pt(i)}}
+			}
+			g = m
+		case 5:
+			m := make(orb.Collection, n)
+			for i := range m {
+				switch i % 3 {
+				case 0:
+					m[i] = pt(i)
+				case 1:
+					m[i] = orb.LineString{pt(i), pt(i + 1)}
+				default:
+					m[i] = orb.Polygon{{pt(i), pt(i + 1), pt(i + 2), pt(i)}}
+				}
+			}
+			g = m
+		}
+		roundTrip(c, g)
+		c.NonTrivial()
+	})
 	r.Explore("value-sweep", "8 non-collection shapes x every ordered pair of the 22 finite values in one coordinate slot", mc.Opts{MaxDev: -1, Split: 2}, func(c *mc.Ctx) {
 		sh := shapes[c.Choose(len(shapes))]
 		x, y := ffin[c.Choose(len(ffin))], ffin[c.Choose(len(ffin))]
